@@ -151,6 +151,8 @@ type SimPeer struct {
 
 // Sim is a network of simulated peers and the message sender that reaches them.
 type Sim struct {
+	// StreamOpenDelay, if set, is how long opening a stream to a peer takes (stream face only, see StreamFn).
+	StreamOpenDelay func(p peer.ID) time.Duration
 	H           *Host
 	K           int // closer peers per honest answer
 	ReadTimeout time.Duration
